@@ -41,7 +41,11 @@ PARTIAL = ['finite: proved on any carrier (incl. Float) only GIVEN the IEEE fact
            'np.linalg.cond is an external symbol: the ridge decision is proved as a function of its value; that a '
            'numerically singular matrix has cond > 2^52 is numpy behaviour, observed in the tie',
            'storage dtype of the training table: the theorems are about real / binary64 scores; narrow dtypes '
-           '(float32, float16, int8 ...) are covered by tie + search only (findings fit:storage-dtype-dependent:*)']
+           '(float32, float16, int8 ...) are covered by tie + search only: entries are the Pearson correlation of the '
+           'scores of the marginal CDF as the library evaluates it on the stored values (deviation from a float64 '
+           're-evaluation is counted, not a failure); degenerate marginal fits that exist only in narrow storage are '
+           'findings keyed by cause: fit:integer-dtype-wraparound-in-range:*, fit:narrow-float-overflow-in-moments:*, '
+           'fit:narrow-float-underflow-in-moments:*, fit:narrow-float-nonfinite-scipy-mle:*']
 ASSUMPTIONS = ['real-number semantics of binary64 formulas (DESIGN 3.1)',
                'pandas DataFrame.corr() (method=pearson) = libalgos.nancorr = Model.pearson; validated bit-for-bit '
                'every run (obligation corr:pandas-corr)',
